@@ -94,19 +94,6 @@ package mq
 //@   requires istype(reason, *Malformed) ==> payload(reason, *Malformed) != nil
 //@   ensures result != nil && fresh(result)
 
-//@ func (*bits).ReadFrom
-//@   inline
-//@   requires r != nil
-
-//@ func (*vbint).ReadFrom
-//@   inline
-//@   requires r != nil
-//@   loop 0:
-//@     invariant 0 <= i && i <= 4
-//@     invariant multiplier == specPow128(int(i))
-//@     invariant value < multiplier
-//@     decreases 5 - i
-
 // ---------------------------------------------------------------- framing engine
 
 //@ func (*buffer).getAny
@@ -115,21 +102,6 @@ package mq
 //@     invariant 0 <= b.i && b.i <= len(b.data)
 //@     invariant $elems - old($elems) <= b.i - old(b.i)                   #C05
 //@     decreases len(b.data) - b.i
-
-//@ func (*fixedHeader).ReadRemaining
-//@   requires r != nil
-//@   requires uint(f.remainingLen) <= 268435455
-//@   assigns $heap, $pos, $reads
-//@   ensures (result0 != nil) != (result1 != nil)                      #C04
-
-//@ func (*fixedHeader).ReadFrom
-//@   requires r != nil
-//@   assigns *f, $heap, $pos, $reads
-//@   ensures result1 == nil ==> uint(f.remainingLen) <= 268435455
-
-//@ func ReadPacket
-//@   requires r != nil
-//@   ensures (result0 != nil) != (result1 != nil)                      #C04
 
 // ---------------------------------------------------------------- packet decoders
 
@@ -393,3 +365,96 @@ package mq
 //@   ensures specVbValue(specVbByte(v, 0), specVbByte(v, 1), specVbByte(v, 2), specVbByte(v, 3)) == v                               #C15
 //@   ensures specVbLen(specVbByte(v, 0), specVbByte(v, 1), specVbByte(v, 2), specVbByte(v, 3)) == specVbWidth(v)                    #C15
 //@   ensures specVbWidth(v) <= 4                                                                                                    #C15
+
+// ---------------------------------------------------------------- reading from a stream (C06 C07 C08 C15 C16)
+// Ghost stream: S(k) is byte k of everything the reader will ever deliver, $N
+// is where the stream stops, T the error it then reports (io.EOF or a
+// failure), $pos the number of bytes delivered so far. Every Read call
+// returns an arbitrary legal chunk, so a postcondition over S, $N, T and
+// old($pos) holds for every fragmentation and every cut point.
+
+//@ func io.ReadAtLeast
+//@   requires r != nil && min == len(buf)
+//@   assigns elems(buf), $pos, $reads
+//@   ensures old($pos) <= $pos && $pos <= $N
+//@   ensures $N - old($pos) >= min ==> result1 == nil && result0 == min && $pos == old($pos) + min
+//@   ensures forall k in 0..min: $N - old($pos) >= min ==> buf[k] == S(old($pos) + k)
+//@   ensures $N - old($pos) < min ==> result1 != nil && $pos == $N && result0 == $N - old($pos)
+//@   ensures $N - old($pos) < min && ($N == old($pos) || !tIsEOF()) ==> isT(result1)
+//@   loop 0:
+//@     invariant 0 <= n && n <= len(buf) && $pos == old($pos) + n && $pos <= $N
+//@     invariant forall k in 0..n: buf[k] == S(old($pos) + k)
+//@     invariant err != nil ==> isT(err) && $pos == $N
+
+//@ func (*bits).ReadFrom
+//@   requires r != nil
+//@   assigns *v, $pos, $reads
+//@   ensures $N - old($pos) >= 1 ==> result1 == nil && result0 == 1 && *v == bits(S(old($pos))) && $pos == old($pos) + 1
+//@   ensures $N - old($pos) < 1 ==> result1 != nil && isT(result1) && $pos == old($pos) && unchanged(*v)
+
+//@ func (*vbint).ReadFrom
+//@   requires r != nil
+//@   let a = $N - old($pos)
+//@   let b0 = S(old($pos))
+//@   let b1 = S(old($pos) + 1)
+//@   let b2 = S(old($pos) + 2)
+//@   let b3 = S(old($pos) + 3)
+//@   assigns *v, $pos, $reads
+//@   ensures old($pos) <= $pos && $pos <= $N
+//@   ensures specVbOK(a, b0, b1, b2, b3) ==> result1 == nil && uint(*v) == specVbValue(b0, b1, b2, b3) && $pos == old($pos) + specVbLen(b0, b1, b2, b3)
+//@   ensures !specVbOK(a, b0, b1, b2, b3) ==> result1 != nil && unchanged(*v)
+//@   ensures !specVbOK(a, b0, b1, b2, b3) && a < 5 ==> isT(result1) && $pos == $N
+//@   loop 0:
+//@     invariant 0 <= i && i <= 4 && $pos == old($pos) + int(i) && $pos <= $N
+//@     invariant multiplier == specPow128(int(i))
+//@     invariant value < multiplier
+//@     invariant forall k in 0..int(i): uint(S(old($pos) + k)) >= 128
+//@     invariant i == 0 ==> value == 0
+//@     invariant i == 1 ==> value == uint(b0) % 128
+//@     invariant i == 2 ==> value == uint(b0) % 128 + (uint(b1) % 128) * 128
+//@     invariant i == 3 ==> value == uint(b0) % 128 + (uint(b1) % 128) * 128 + (uint(b2) % 128) * 16384
+//@     invariant i == 4 ==> value == uint(b0) % 128 + (uint(b1) % 128) * 128 + (uint(b2) % 128) * 16384 + (uint(b3) % 128) * 2097152
+//@     decreases 5 - i
+
+//@ func (*fixedHeader).ReadFrom
+//@   requires r != nil
+//@   let a = $N - old($pos)
+//@   let c1 = S(old($pos) + 1)
+//@   let c2 = S(old($pos) + 2)
+//@   let c3 = S(old($pos) + 3)
+//@   let c4 = S(old($pos) + 4)
+//@   assigns *f, $pos, $reads
+//@   ensures old($pos) <= $pos && $pos <= $N
+//@   ensures a >= 1 && specVbOK(a - 1, c1, c2, c3, c4) ==> result1 == nil && f.fixed == bits(S(old($pos))) && uint(f.remainingLen) == specVbValue(c1, c2, c3, c4) && $pos == old($pos) + 1 + specVbLen(c1, c2, c3, c4)
+//@   ensures !(a >= 1 && specVbOK(a - 1, c1, c2, c3, c4)) ==> result1 != nil
+//@   ensures a == 0 ==> isT(result1) && $pos == old($pos)
+//@   ensures a < 6 && !(a >= 1 && specVbOK(a - 1, c1, c2, c3, c4)) ==> isT(result1) && $pos == $N
+//@   ensures result1 == nil ==> uint(f.remainingLen) <= 268435455
+
+//@ func (*fixedHeader).ReadRemaining
+//@   requires r != nil
+//@   requires uint(f.remainingLen) <= 268435455
+//@   let rl = old(int(f.remainingLen))
+//@   assigns $heap, $pos, $reads
+//@   ensures (result0 != nil) != (result1 != nil)                                                   #C04 #C08
+//@   ensures old($pos) <= $pos && $pos <= $N
+//@   ensures $N - old($pos) >= rl ==> $pos == old($pos) + rl                                        #C06 #C07
+//@   ensures $N - old($pos) < rl ==> result0 == nil && result1 != nil && $pos == $N                 #C08
+//@   ensures $N - old($pos) < rl && ($N == old($pos) || !tIsEOF()) ==> errIsT(result1)              #C08
+
+//@ func ReadPacket
+//@   requires r != nil
+//@   let a = $N - old($pos)
+//@   let c1 = S(old($pos) + 1)
+//@   let c2 = S(old($pos) + 2)
+//@   let c3 = S(old($pos) + 3)
+//@   let c4 = S(old($pos) + 4)
+//@   let hdr = a >= 1 && specVbOK(a - 1, c1, c2, c3, c4)
+//@   let flen = 1 + specVbLen(c1, c2, c3, c4) + int(specVbValue(c1, c2, c3, c4))
+//@   assigns $heap, $pos, $reads
+//@   ensures (result0 != nil) != (result1 != nil)                                                   #C04 #C08
+//@   ensures hdr && a >= flen ==> $pos == old($pos) + flen                                          #C06 #C07
+//@   ensures !(hdr && a >= flen) ==> result0 == nil && result1 != nil                               #C08
+//@   ensures a == 0 ==> errIsT(result1)                                                             #C08
+//@   ensures !(hdr && a >= flen) && a < 6 + (hdr ? flen : 0) && !tIsEOF() ==> errIsT(result1)       #C08
+//@   ensures result0 != nil ==> hdr && a >= flen                                                    #C08
